@@ -172,6 +172,9 @@ var RangeFunc = function.New(&function.Spec{
 		if step == cty.Zero {
 			return cty.NilVal, function.NewArgErrorf(2, "step must not be zero")
 		}
+		if step.RawEquals(cty.PositiveInfinity) || step.RawEquals(cty.NegativeInfinity) {
+			return cty.NilVal, function.NewArgErrorf(2, "step must be finite")
+		}
 		down := step.LessThan(cty.Zero).True()
 
 		if down {
